@@ -122,8 +122,17 @@ def c18(tier):
     if tier == 'quick':
         return [sel('spellings', 'C18', SEL(2, 'triples', 'small', spell='all'), ['Emit']),
                 sel('omitted-root-funcs', 'C18', SEL(2, 'triples', 'tiny', funcs=True, spell='omit', fset='small'), ['Emit']),
-                roundtrip('roundtrip-atoms', 'C18', 'atoms')]
+                roundtrip('roundtrip-atoms', 'C18', 'atoms'),
+                # every slice form written compactly and with blanks / signs / leading zeros (Gen_Slice renders both)
+                dict(kind='gen', module='Gen_Slice', label='slice-spellings', props='C18', opts='allspell=1', timeout=600,
+                     constants=dict(Rng=2, MaxN=3, Bigs=False, Forms='all'), invariants=['Emit']),
+                dict(kind='gen', module='Gen_Keys', label='quote-styles-agree', props='C18', timeout=600,
+                     constants=dict(MaxAtoms=2, Alphabet='reduced'), invariants=['Emit'])]
     return [sel('spellings', 'C18', SEL(2, 'pairs', 'small', spell='all'), ['Emit'], timeout=3600),
+            dict(kind='gen', module='Gen_Slice', label='slice-spellings', props='C18', opts='allspell=1', timeout=1800,
+                 constants=dict(Rng=3, MaxN=4, Bigs=True, Forms='all'), invariants=['Emit']),
+            dict(kind='gen', module='Gen_Keys', label='quote-styles-agree', props='C18', timeout=1800,
+                 constants=dict(MaxAtoms=2, Alphabet='full'), invariants=['Emit']),
             sel('all-64-spellings', 'C18', SEL(2, 'triples', 'small', spell='all64'), ['Emit'], timeout=7200),
             roundtrip('roundtrip-atoms', 'C18', 'atoms'), roundtrip('roundtrip-steps', 'C18', 'steps', 7200),
             sel('spellings-funcs', 'C18', SEL(2, 'triples', 'small', funcs=True, spell='all', fset='small'), ['Emit'], timeout=7200)]
